@@ -1468,7 +1468,14 @@ class Compiler(compiler.Compiler):
                                          compiled_members)
 
         if sort_by_tag:
-            compiled_members = sorted(compiled_members, key=attrgetter('tag'))
+            # Canonical order of tags. A high tag number is encoded
+            # in as few octets as possible, so among tags of the same
+            # class more octets means a larger number.
+            compiled_members = sorted(
+                compiled_members,
+                key=lambda member: (member.tag[:1],
+                                    len(member.tag),
+                                    member.tag))
 
         return compiled_members, additions
 
